@@ -97,28 +97,8 @@ def Val.pyEq : Val → Val → Bool
   | .list a, .list b => pyEqL a b
   | _, _ => false
 
--- shape of `np.array(x)`; ragged input is a `ValueError` (NumPy ≥ 1.24)
-mutual
-def Tree.shape : Tree → Except Err (List Nat)
-  | .leaf _ => .ok []
-  | .node l => shapeList l
-def shapeList : List Tree → Except Err (List Nat)
-  | [] => .ok [0]
-  | t :: ts => do
-      let s ← t.shape
-      let r ← shapeList ts
-      match ts, r with
-      | [], _ => .ok (1 :: s)
-      | _ :: _, n :: s' => if s = s' then .ok ((n + 1) :: s) else .error .value
-      | _ :: _, [] => .error .value
-end
-
-def prodL : List Nat → Nat
-  | [] => 1
-  | a :: r => a * prodL r
-
-/-- `np.atleast_1d(x).size` -/
-def Tree.npSize (t : Tree) : Except Err Nat := t.shape.map prodL
+/-- flattened length: `np.atleast_1d(flatten(x)).size` -/
+def Tree.flatSize (t : Tree) : Nat := t.flat.length
 
 /-! ## dictionaries -/
 
@@ -452,13 +432,10 @@ def setSeq {τ : Type} (skip : τ → Bool) (arity : τ → Except Err Nat) (set
     let r ← distR skip arity setOne terms.reverse vs
     .ok r.reverse
 
-/-- flattened length: `np.atleast_1d(flatten(x)).size` -/
-def Tree.flatSize (t : Tree) : Nat := t.flat.length
-
-/-- `np.atleast_1d(getattr(atom, name)).size` -/
+/-- `np.atleast_1d(flatten(getattr(atom, name))).size` -/
 def Atom.arity (name : String) (a : Atom) : Except Err Nat := do
   let v ← attr a.d name
-  v.toTree.npSize
+  .ok v.toTree.flatSize
 
 /-- `setattr(atom, name, v); atom._validate_arguments()` -/
 def Atom.setOne (name : String) (a : Atom) (v : Tree) : Except Err Atom := do
@@ -505,14 +482,15 @@ def Term.getD (t : Term) (name : String) : Tree :=
     | some v => v.toTree
     | none => if pluralNames.contains name then tensorGet ms name else .leaf .none
 
-/-- `np.atleast_1d(getattr(term, name)).size` -/
+/-- `np.atleast_1d(flatten(getattr(term, name))).size` (flattened first: marginals of a tensor term may hold
+different numbers of values) -/
 def Term.arity (name : String) (t : Term) : Except Err Nat :=
   match t with
   | .atom a => a.arity name
   | .tensor d ms =>
     match dget d name with
-    | some v => v.toTree.npSize
-    | none => if pluralNames.contains name then (tensorGet ms name).npSize else .error .attribute
+    | some v => .ok v.toTree.flatSize
+    | none => if pluralNames.contains name then .ok (tensorGet ms name).flatSize else .error .attribute
 
 /-- `setattr(term, name, v)` (any name) -/
 def Term.setattr (t : Term) (name : String) (v : Tree) : Except Err Term :=
@@ -520,7 +498,7 @@ def Term.setattr (t : Term) (name : String) (v : Tree) : Except Err Term :=
   match t with
   | .atom a => (dsetTree a.d name v).map (fun d => .atom { a with d := d })
   | .tensor d ms =>
-    if pluralNames.contains name then (tensorSet ms name v).map (.tensor d)
+    if pluralNames.contains name then (tensorSet ms name v).map (.tensor (ddel d name))
     else (dsetTree d name v).map (fun d' => .tensor d' ms)
 
 /-- `setattr(term, name, v); term._validate_arguments()` inside the loop of a term list -/
@@ -633,7 +611,7 @@ def Term.fromInfo (i : TermInfo) : Except Err Term :=
     | none => .error .key
     | some subs => do
         let ms ← atomsFromInfo subs
-        mkTensor (ms.map .term) (kwGet i.d "by" vnone) (vbool false) []
+        mkTensor (ms.map .term) (kwGet i.d "by" vnone) (kwGet i.d "verbose" (vbool false)) []
   | _ => (atomFromInfo .spline i.d).map .atom
 
 /-! ## term lists -/
@@ -703,7 +681,7 @@ def TermList.getattr (l : TermList) (name : String) : Except Err Tree :=
 def TermList.setattr (l : TermList) (name : String) (v : Tree) : Except Err TermList :=
   if listPropNames.contains name then .error .attribute else
   if l.hasTerms && pluralNames.contains name then
-    (setPlural l.terms name v).map (fun ts => { l with terms := ts })
+    (setPlural l.terms name v).map (fun ts => { d := ddel l.d name, terms := ts })
   else (dsetTree l.d name v).map (fun d => { l with d := d })
 
 def TermList.hasattr (l : TermList) (name : String) : Bool :=
@@ -730,7 +708,7 @@ def termsFromInfo : List TermInfo → Except Err (List Term)
 /-- `TermList.build_from_info(info)` -/
 def TermList.fromInfo (i : ListInfo) : Except Err TermList := do
   let ts ← termsFromInfo i.terms
-  .ok (TermList.mk' (ts.map .inl) false)
+  .ok (TermList.mk' (ts.map .inl) i.verbose.truthy)
 
 /-! ## compile: the data-dependent state -/
 
@@ -861,15 +839,16 @@ def Gam.getattr (g : Gam) (name : String) : Except Err Tree :=
     | some l => if pluralNames.contains name then .ok (getPlural l.terms name) else .error .attribute
     | none => .error .attribute
 
-/-- `setattr(gam, name, value)` for a plural name (`size` is taken from `getattr(gam, name)`, i.e. from a
-stored keyword when there is one) -/
+def ownDel (own : List (String × Tree)) (k : String) : List (String × Tree) := own.filter (fun p => p.1 ≠ k)
+
+/-- `setattr(gam, name, value)` for a plural name: with terms, a keyword of that name stored by the constructor is
+dropped (`self.__dict__.pop(name, None)`) and the value is distributed to the terms; without terms it is stored -/
 def Gam.setattr (g : Gam) (name : String) (v : Tree) : Except Err Gam :=
   if !pluralNames.contains name then .error .unsupported else
   match g.termList? with
   | some l => do
-      let cur ← g.getattr name
-      let ts ← setPluralSized cur.flatSize l.terms name v
-      .ok { g with terms := .list { l with terms := ts } }
+      let ts ← setPlural l.terms name v
+      .ok { g with own := ownDel g.own name, terms := .list { l with terms := ts } }
   | none => .ok { g with own := ownSet g.own name v }
 
 def handOver : List (String × Tree) → TermList → Except Err TermList
